@@ -4,7 +4,7 @@ EXTENDS PoolOwnership, TLC
 
 VARIABLE shared   \* KF1 only: <<offset, thread>> pairs - further threads holding an offset that another thread owns
 
-KnownIds == {"C08-KF1", "C08-KF2", "C08-KF3"}
+KnownIds == {"C08-KF1", "C08-KF2", "C08-KF3", "C08-KF4"}
 
 (* C08-KF1 (the C07-KF11 defect seen by concurrent users): the five-level ThreadLocalPool hands out  *)
 (* offsets relative to the arena of the CALLING thread in the one MemOffset space of the pool, so   *)
@@ -51,11 +51,26 @@ G3(e, subj) ==
     /\ e.c.allocated /= e.c.csz * (e.c.chunks + Cardinality(DOMAIN owner))
 KF3(e, subj) == Counters(Without(e.c, "allocated"), 0)
 
+(* C08-KF4: LockFreeMemoryPool (sizes above the 8 KiB fast-bin threshold: skip list) and the      *)
+(* five-level LockFreePool / MutexBasedPool (sizes above max_fast_block_size: huge list) only      *)
+(* count a freed block of such a size; it is never handed out again (the lists are not            *)
+(* implemented): the block is lost until the pool is dropped.  Guard: the run states the pool's    *)
+(* threshold (fastmax), the drain of a recycling pool, something is missing and everything         *)
+(* missing was handed out above the threshold.  Blocks at or below it stay under the contract.     *)
+G4(e, subj) ==
+    /\ "fastmax" \in DOMAIN subj /\ subj.fam \in {"lfp", "fl5", "mx5"}
+    /\ e.op = "drain" /\ e.recycles
+    /\ seen \ { e.drained[i] : i \in 1..Len(e.drained) } /= {}
+    /\ seen \ { e.drained[i] : i \in 1..Len(e.drained) } \subseteq big
+KF4(e, subj) == shared = {} /\ DrainOf(seen \ big, e.drained, e.recycles, 0)
+
 DevApplies(id, e, subj) ==
+    \/ id = "C08-KF4" /\ G4(e, subj)
     \/ id = "C08-KF1" /\ G1(e, subj)
     \/ id = "C08-KF2" /\ G2(e, subj)
     \/ id = "C08-KF3" /\ G3(e, subj)
 KnownDeviation(id, e, subj) ==
+    \/ id = "C08-KF4" /\ G4(e, subj) /\ KF4(e, subj) /\ shared' = shared
     \/ id = "C08-KF1" /\ G1(e, subj) /\ KF1(e, subj)
     \/ id = "C08-KF2" /\ G2(e, subj) /\ KF2(e, subj) /\ shared' = shared
     \/ id = "C08-KF3" /\ G3(e, subj) /\ KF3(e, subj) /\ shared' = shared
